@@ -61,6 +61,8 @@ func (o verOp) String() string {
 			return "set-versioning Enabled+MfaDelete"
 		}
 		return "set-versioning Suspended+MfaDelete"
+	case "copy":
+		return "copy " + o.k + " -> " + o.body
 	}
 	return o.kind
 }
@@ -105,6 +107,16 @@ func (s *verSys) Ops() []engine.Op {
 	for _, k := range s.keys {
 		if len(s.m.Keys[k]) < s.maxEnt || s.m.Status != "Enabled" {
 			ops = append(ops, verOp{kind: "delete", k: k})
+		}
+	}
+	// a server-side copy is an upload too: onto itself (new version of the same key) and onto the other key
+	for _, k := range s.keys {
+		if l := s.m.Latest(k); l != nil && !l.Marker {
+			dst := s.keys[len(s.keys)-1]
+			if len(s.m.Keys[dst]) < s.maxEnt {
+				ops = append(ops, verOp{kind: "copy", k: k, body: dst})
+			}
+			break
 		}
 	}
 	ops = append(ops, verOp{kind: "setver", enable: true}, verOp{kind: "setver", enable: false})
@@ -365,6 +377,30 @@ func (s *verSys) apply(op engine.Op) (string, *engine.Violation) {
 		}
 		s.syncIDs()
 		return respSig(r), nil
+	case "copy":
+		src, dst := o.k, o.body
+		s.syncIDs() // ids the listing shows for versions written before versioning was enabled
+		srcE := s.m.Latest(src)
+		pre := s.m.Keys[dst]
+		esc := strings.NewReplacer("%", "%25", "+", "%2B", " ", "%20").Replace(src)
+		r := s.w.Do(drv.Req{Method: "PUT", Path: "/" + s.bucket + "/" + dst, Header: drv.H("X-Amz-Copy-Source", "/"+s.bucket+"/"+esc, "x-amz-meta-a", "m-"+string(srcE.Body), "x-amz-metadata-directive", "REPLACE")})
+		if r.Status != 200 || r.Panic != "" {
+			return respSig(r), s.verBad("copy", "status", "-", "copy %s -> %s answered %s", src, dst, r.Short())
+		}
+		id := r.Header.Get("x-amz-version-id")
+		if s.m.Status == "Enabled" {
+			// the copy creates a version of the destination: if an id is reported it is that version's
+			if id != "" && s.m.AllIDs[id] {
+				return respSig(r), s.verBad("copy", "version-id", "not-fresh", "copy %s -> %s reported version id %s, which belongs to an earlier upload", src, dst, id)
+			}
+		} else {
+			id = ""
+		}
+		cands := s.m.PutCandidates(dst, srcE.Body, map[string]string{"x-amz-meta-a": "m-" + string(srcE.Body)})
+		if v := s.resolve("copy", dst, pre, cands, id); v != nil {
+			return respSig(r), v
+		}
+		return respSig(r) + " " + strconv.FormatBool(id != ""), nil
 	case "put":
 		pre := s.m.Keys[o.k]
 		r := s.w.Do(drv.Req{Method: "PUT", Path: "/" + s.bucket + "/" + o.k, Body: []byte(o.body), Header: drv.H("x-amz-meta-a", "m-"+o.body)})
